@@ -18,6 +18,30 @@ from props.c09 import py_call
 PROP = "C10"
 
 
+FORMS = ["kw", "pos", "pos-so", "omit", "pos-omit"]
+
+
+def compute(R, form, avals, ph, so, meas):
+    """the same request in every calling form the signature allows (positional, keyword, defaults left to the library)"""
+    a, p = np.array(avals), np.array(ph)
+    if form == "pos":
+        return R.ComputeQSPResponse(a, p, so, meas)
+    if form == "pos-so":
+        return R.ComputeQSPResponse(a, p, so, measurement=meas)
+    if form == "omit":
+        kw = {}
+        if so != "Wx":
+            kw["signal_operator"] = so
+        if meas is not None:
+            kw["measurement"] = meas
+        return R.ComputeQSPResponse(a, p, **kw)
+    if form == "pos-omit":
+        if meas is None:
+            return R.ComputeQSPResponse(a, p, so) if so != "Wx" else R.ComputeQSPResponse(a, p)
+        return R.ComputeQSPResponse(a, p, so, meas)
+    return R.ComputeQSPResponse(adat=a, phiset=p, signal_operator=so, measurement=meas)
+
+
 def resp_case(ctx, R, LP, rng, n, given=None):
     d = ctx.driver()
     ph, pat = gens.phases(rng, n)
@@ -25,13 +49,16 @@ def resp_case(ctx, R, LP, rng, n, given=None):
     meas = rng.choice(["x", "z", None])
     meas = None if meas is None else str(meas)
     avals = [float(rng.uniform(-1, 1)) for _ in range(3 if n <= 64 else 1)] + [float(rng.choice([1.0, -1.0, 0.0, 0.5, -0.999999999]))]
+    form = FORMS[int(rng.integers(len(FORMS)))]
     if given is not None:
-        ph, pat, so, meas, avals = given
-    py = py_call(lambda: R.ComputeQSPResponse(np.array(avals), np.array(ph), signal_operator=so, measurement=meas)["pdat"])
+        ph, pat, so, meas, avals = given[:5]
+        form = given[5] if len(given) > 5 else form
+    py = py_call(lambda: compute(R, form, avals, ph, so, meas)["pdat"])
     ctx.count("model:%s/%s" % (so, meas))
+    ctx.count("calling-form:" + form)
     ctx.count("phases:" + pat)
-    ctx.case([so, meas, ph, avals], n >= 2, {"so": so, "meas": meas, "n": n, "phases": ph[:4], "a": avals})
-    replay = {"signal_operator": so, "measurement": meas, "phases": ph, "a": avals}
+    ctx.case([so, meas, ph, avals, form], n >= 2, {"so": so, "meas": meas, "n": n, "phases": ph[:4], "a": avals, "form": form})
+    replay = {"signal_operator": so, "measurement": meas, "phases": ph, "a": avals, "calling_form": form}
     if py[0] != "ok":
         ctx.violation("resp:raises", "ComputeQSPResponse raised on valid arguments: %s" % str(py[1])[:100], replay)
         return
@@ -78,7 +105,10 @@ def refuse_case(ctx, R, rng):
     for so, me in ((bad_so, None), (bad_so, "x"), ("Wx", bad_me), ("Wz", bad_me)):
         try:
             with core.quiet():
-                R.ComputeQSPResponse(np.array([0.3]), ph, signal_operator=so, measurement=me)
+                if rng.random() < 0.5:
+                    R.ComputeQSPResponse(np.array([0.3]), ph, signal_operator=so, measurement=me)
+                else:
+                    R.ComputeQSPResponse(np.array([0.3]), ph, so, me)
             out = "returned"
         except R.ResponseError:
             out = "ResponseError"
@@ -119,13 +149,14 @@ def sweep_all_lengths(ctx, R, LP, rng, tier):
         meas = rng.choice(["x", "z", None])
         meas = None if meas is None else str(meas)
         avals = [float(rng.uniform(-1, 1)), float(rng.choice([1.0, -1.0, 0.0, 1 - 1e-7, -1 + 3e-6, 0.999995, float(rng.uniform(-1, 1))]))]
-        py = py_call(lambda: R.ComputeQSPResponse(np.array(avals), np.array(ph), signal_operator=so, measurement=meas)["pdat"])
+        form = FORMS[n % len(FORMS)]
+        py = py_call(lambda: compute(R, form, avals, ph, so, meas)["pdat"])
         ctx.count("all-lengths-sweep")
         ctx.case(["sweep", so, meas, ph, avals], True, {"so": so, "meas": meas, "n": n, "kind": "all-lengths sweep"})
         bad = py[0] != "ok" or len(py[1]) != len(avals) or any(abs(complex(v) - float_definition(so, meas, ph, a)) > 1e-9 for v, a in zip(py[1], avals))
         if bad:
             ctx.count("all-lengths-sweep:escalated")
-            resp_case(ctx, R, LP, rng, n, given=(ph, pat, so, meas, avals))
+            resp_case(ctx, R, LP, rng, n, given=(ph, pat, so, meas, avals, form))
 
 
 def run(tier, seed):
@@ -136,13 +167,20 @@ def run(tier, seed):
     lengths = [1, 2, 3, 4, 5, 7, 10, 16, 25, 40, 64] * (8 if tier == "quick" else 60) + [100, 150, 200] * (1 if tier == "quick" else 12)
     for n in lengths:
         resp_case(ctx, R, LP, ctx.rng, n)
+    # every (operator, measurement, calling form) combination at least once, whatever the seed
+    for so in ("Wx", "Wz"):
+        for meas in ("x", "z", None):
+            for form in FORMS:
+                n = int(ctx.rng.integers(2, 9))
+                ph, pat = gens.phases(ctx.rng, n)
+                resp_case(ctx, R, LP, ctx.rng, n, given=(ph, pat, so, meas, [float(ctx.rng.uniform(-1, 1)), 0.37], form))
     sweep_all_lengths(ctx, R, LP, ctx.rng, tier)
     for _ in range(10 if tier == "quick" else 50):
         refuse_case(ctx, R, ctx.rng)
     ctx.assumptions = ["binary64 responses compared with the exact product within 1e-12*(n+1) plus the proven enclosure error",
                        "e^{i phi} from Taylor enclosures at 100+n bits; sqrt(1-a^2) from an integer square root"]
     return ctx.finish(
-        rule="phase lists of length 1..200 in 7 patterns x (signal_operator, measurement) in {Wx,Wz} x {x,z,default} x 4 signal "
+        rule="phase lists of length 1..200 in 7 patterns x (signal_operator, measurement) in {Wx,Wz} x {x,z,default} x 5 calling forms (keyword, positional, defaults left to the library) x 4 signal "
              "values per list including +-1 and 0; invalid names; distinct = distinct (model, phases, points)")
 
 
